@@ -795,6 +795,12 @@ func (c *wsConn) handleWsConn(ctx context.Context) {
 		case rerr := <-c.readError:
 			action = "read-error"
 
+			// the connection is unusable until the reconnect completes; without this, requests
+			// issued in the meantime are registered as in-flight on the dead connection
+			c.errLk.Lock()
+			c.incomingErr = rerr
+			c.errLk.Unlock()
+
 			log.Debugw("websocket error", "error", rerr, "lastAction", action, "time", time.Since(start))
 			if !c.tryReconnect(ctx) {
 				return // failed to reconnect
